@@ -2,6 +2,7 @@
 
 mod breaker;
 mod clusterchk;
+mod multi;
 mod nodeh;
 mod parse;
 mod replic;
@@ -12,6 +13,10 @@ mod topo;
 use vlib::Check;
 
 fn main() {
-    let checks: Vec<&dyn Check> = vec![&topo::C24, &topo::C13, &topo::C14, &breaker::C26, &parse::C21, &clusterchk::C07, &clusterchk::C08, &replic::C12, &resp::C22, &subs::C09];
+    let args: Vec<String> = std::env::args().collect();
+    if args.len() >= 3 && args[1] == "--serve" {
+        multi::serve(&args[2]);
+    }
+    let checks: Vec<&dyn Check> = vec![&topo::C24, &topo::C13, &topo::C14, &breaker::C26, &parse::C21, &clusterchk::C07, &clusterchk::C08, &replic::C12, &resp::C22, &subs::C09, &multi::C10, &multi::C11];
     vlib::main_entry(&checks)
 }
